@@ -11,7 +11,7 @@
 EXTENDS RaggedHeap
 CONSTANTS Depth, MaxH, SelSet, AsgSet, FunSet, ReadSet
 VARIABLE hist
-vars == <<heap, alias, bufs, view, stale, last, hist>>
+vars == <<heap, alias, bufs, view, stale, last, anc, mayst, hist>>
 
 Base1 == <<"i8", <<<<10, 11>>, <<>>, <<12, 13, 14>>>>>>
 Base2 == <<"i8", <<<<>>, <<20>>, <<21, 22>>, <<>>>>>>
